@@ -69,7 +69,7 @@ theorem keepK_chain (S : Schema) (o : MergeOpts) : ∀ (chain : List (DNode × N
     rw [hn] at hrun
     obtain ⟨t, h1, _, h3⟩ := nthMatch_of_absK S c.1 c.2 _ _ hrun
     simp only [descendK, h1, h3]
-    rw [← hl]
+    rw [hl]
   | c :: c2 :: cs, p, l, ctx, ld, st, y, k, hcan, hcache, hs, hp, hc, hkeys, hl, hn => by
     obtain ⟨⟨a, b, e, hk⟩, hrest⟩ := hc
     have hmem : c.1 ∈ st.cur := by rw [e]; simp
